@@ -115,7 +115,8 @@ func (w *world) valAddr(v int) string {
 type outcome struct {
 	Class    int
 	Err      string
-	Ct       int64 // completion time (ns) of a successful undelegation
+	Ct       int64    // completion time (ns) of a successful undelegation
+	Ret      *big.Int // MsgNonVotingUndelegateResponse.Amount = what staking reports it unbonds
 	Rw       [][]*big.Int
 	Released *big.Int
 }
@@ -143,6 +144,7 @@ func (w *world) apply(o op) outcome {
 	srv := sckeeper.NewMsgServerImpl(h.App.ShareclassKeeper)
 	var out outcome
 	out.Released = big.NewInt(0)
+	out.Ret = big.NewInt(0)
 	for range w.vals {
 		out.Rw = append(out.Rw, coinsToRow(nil))
 	}
@@ -172,6 +174,7 @@ func (w *world) apply(o op) outcome {
 				Amount: sdk.Coin{Denom: denomNames[o.Dn], Amount: sdkmath.NewIntFromBigInt(o.Amt)}, Recipient: rcp})
 			if e == nil {
 				out.Ct = r.CompletionTime.UnixNano()
+				out.Ret = r.Amount.Amount.BigInt()
 			}
 			return e
 		})
